@@ -872,7 +872,11 @@ class RedlineEngine:
                 # anchor's paragraph, so they keep anchoring on the preceding paragraph.
                 _, first_style = self._parse_markdown_style(re.split(r"[\r\n]+", final_new_text)[0])
                 if first_style or re.search(r"[\r\n]", final_new_text):
-                    anchor_run, insert_before = active_mapper.get_insertion_anchor(start_idx), False
+                    previous_run = active_mapper.get_insertion_anchor(start_idx)
+                    # ... but only inside the same story: the first paragraph of the body must not
+                    # push its new text into the header that precedes it in the text.
+                    if previous_run is not None and anchor_run is not None and previous_run.part is anchor_run.part:
+                        anchor_run, insert_before = previous_run, False
             if not anchor_run:
                 return False
 
